@@ -316,11 +316,33 @@ func loadKnown(path string) map[string]string {
 	return res
 }
 
+// safeExec runs one case; a panic raised by the library on the calling goroutine becomes
+// the tape of a panic (kind 70, judged by C07x) rather than the end of the whole run
+func safeExec(p *Prop, s Spec) (e Exec) {
+	defer func() {
+		if r := recover(); r != nil {
+			e = Exec{Tape: "70 1 0 0 1", Tags: []string{"PANIC"}, Nontrivial: true}
+		}
+	}()
+	return p.Exec(s)
+}
+
+// clauseText names a clause; 50 is the panic clause every harness shares through safeExec
+func clauseText(p *Prop, clause int) string {
+	if t, ok := p.Clauses[clause]; ok {
+		return t
+	}
+	if clause == 50 {
+		return "a call into the package panicked"
+	}
+	return ""
+}
+
 func execAll(p *Prop, specs []Spec, workers int) []Exec {
 	out := make([]Exec, len(specs))
 	if p.Serial || workers <= 1 {
 		for i, s := range specs {
-			out[i] = p.Exec(s)
+			out[i] = safeExec(p, s)
 		}
 		return out
 	}
@@ -331,7 +353,7 @@ func execAll(p *Prop, specs []Spec, workers int) []Exec {
 		go func() {
 			defer wg.Done()
 			for i := range ch {
-				out[i] = p.Exec(specs[i])
+				out[i] = safeExec(p, specs[i])
 			}
 		}()
 	}
@@ -474,7 +496,7 @@ func Run(p *Prop, o Options) (*Result, error) {
 					key = p.Finding(s, clause)
 				}
 			}
-			viol := Violation{Kind: "spec-fail", Clause: clause, ClauseText: p.Clauses[clause], Key: key, Spec: specJSON(s), Tape: tape, Verdict: verdict}
+			viol := Violation{Kind: "spec-fail", Clause: clause, ClauseText: clauseText(p, clause), Key: key, Spec: specJSON(s), Tape: tape, Verdict: verdict}
 			if line, ok := known[p.ID+"/"+key]; ok {
 				viol.Known = true
 				res.Known = append(res.Known, line)
@@ -524,7 +546,7 @@ func Run(p *Prop, o Options) (*Result, error) {
 								break
 							}
 							seenKeys["s/"+key] = true
-							viol := Violation{Kind: "spec-fail", Clause: cl2, ClauseText: p.Clauses[cl2], Key: key, Spec: specJSON(s), Tape: tape, Verdict: verdict,
+							viol := Violation{Kind: "spec-fail", Clause: cl2, ClauseText: clauseText(p, cl2), Key: key, Spec: specJSON(s), Tape: tape, Verdict: verdict,
 								Note: "found by neighbourhood search after a model/implementation disagreement"}
 							if line, ok := known[p.ID+"/"+key]; ok {
 								viol.Known = true
@@ -572,7 +594,7 @@ func shrink(p *Prop, j *Judge, s Spec, tape, verdict string, clause int) (Spec, 
 	for round := 0; round < 200; round++ {
 		improved := false
 		for _, c := range p.Shrink(s) {
-			e := p.Exec(c)
+			e := safeExec(p, c)
 			v, err := j.One(e.Tape)
 			if err != nil {
 				return s, tape, verdict
@@ -595,7 +617,7 @@ func shrinkMismatch(p *Prop, j *Judge, s Spec, tape, verdict string) (Spec, stri
 	for round := 0; round < 100; round++ {
 		improved := false
 		for _, c := range p.Shrink(s) {
-			e := p.Exec(c)
+			e := safeExec(p, c)
 			v, err := j.One(e.Tape)
 			if err != nil {
 				return s, tape, verdict
